@@ -38,7 +38,7 @@ PROPS = {
     ),
 }
 
-ENGINES = {'e2e': vlib.e2e_engine, 'store': vlib.store_engine}
+ENGINES = {'e2e': vlib.e2e_engine, 'store': vlib.store_engine, 'atomic': vlib.atomic_engine, 'encrypt': vlib.encrypt_engine}
 
 
 def _e2e(profiles, monitors, projection, nq=1500, nt=20000, extra=None):
@@ -75,3 +75,18 @@ PROPS['C14'] = dict(engines=['store'], store=dict(n_quick=120, n_thorough=6000, 
                           '(lengths around 36, 191/192, 216 bytes; shared prefixes; all byte values; URL-shaped keys with #; the empty key) on memcache, fscache and '
                           'encrypted fscache; every case is non-trivial; distinct = distinct operation text'),
                     assumptions=['the kernel file system behaves as the tree model (openat/rename/unlink/mkdir semantics)'])
+
+PROPS['C15'] = dict(engines=['atomic'],
+                    rule=('experiments on the real fscache: CUT = a child process performs one Set under RLIMIT_FSIZE=k for every (quick: a spread of) k in 0..len, '
+                          'with/without a previous value, with/without encryption, then the parent reads; KILL = a process looping over Sets is SIGKILLed at a random moment; '
+                          'STORM = 6 goroutines x 40 Set/Get/Delete on one key checked for linearizability with porcupine; every experiment is non-trivial; distinct = distinct parameters'),
+                    assumptions=['each system call is atomic; rename is atomic; an open file keeps its inode (kernel semantics assumed, not verified)'])
+
+PROPS['C17'] = dict(engines=['encrypt'],
+                    rule=('experiments on the real fscache with encryption: CONFIG = each documented way of enabling it (option, DSN on/aesgcm, environment key, AES-128/192/256, '
+                          'malformed and missing keys): the files are re-derived with an independent AES-GCM computation and scanned for plaintext fragments; WIRE = a grid of '
+                          'DSN encrypt / encrypt_key / FSCACHE_ENCRYPT_KEY values (and option keys) classified as err / plain / key and compared with Crypto.from_url; TAMPER = every '
+                          'single-byte change (3 masks), every truncation, extensions, wrong key, reader without key; TRANSPORT = a tampered entry through the RoundTripper; '
+                          'every experiment is non-trivial; distinct = distinct result line'),
+                    assumptions=['AES-GCM (crypto/aes, crypto/cipher) is an authenticated cipher: open(seal) = id, only seal outputs open, wrong keys fail; ciphertext reveals no plaintext (cryptographic assumptions, stated as hypotheses of the theorems)',
+                                 'crypto/rand delivers nonces that do not repeat'])
